@@ -3,6 +3,8 @@
 #![feature(allocator_api)]
 use vstd::prelude::*;
 use vstd::std_specs::cmp::*;
+use vstd::utf8::*;
+use vstd::string::StringSliceAdditionalSpecFns;
 use std::ffi::OsString;
 use std::ops::Range;
 use std::rc::Rc;
@@ -162,6 +164,65 @@ pub mod prelude {
     {}
     /// the raw argument is the literal `--`
     pub open spec fn is_dd(os: OsString) -> bool { PartialEqSpec::<&'static str>::eq_spec(&os, &"--") }
+
+    // ---- UTF-8 byte offsets of a `String` (vstd::utf8 is the model of the encoding; used by disambiguate_short)
+    #[verifier::external_type_specification]
+    #[verifier::external_body]
+    pub struct ExCharIndices<'a>(std::str::CharIndices<'a>);
+
+    /// byte offset of the k-th char of `s` in its UTF-8 encoding
+    #[verifier::opaque]
+    pub open spec fn boff(s: Seq<char>, k: int) -> int { encode_utf8(s.take(k)).len() as int }
+
+    /// A-std-charindices: abstract state of a `CharIndices` iterator: the string's chars and the index of the next one
+    pub uninterp spec fn ci_seq(it: std::str::CharIndices<'_>) -> Seq<char>;
+    pub uninterp spec fn ci_pos(it: std::str::CharIndices<'_>) -> int;
+
+    pub assume_specification [str::char_indices] (s: &str) -> (r: std::str::CharIndices<'_>)
+        ensures ci_seq(r) == s@, ci_pos(r) == 0;
+
+    pub assume_specification<'a> [<std::str::CharIndices<'a> as Iterator>::next] (it: &mut std::str::CharIndices<'a>) -> (r: Option<(usize, char)>)
+        ensures
+            ci_seq(*final(it)) == ci_seq(*old(it)),
+            0 <= ci_pos(*old(it)) <= ci_seq(*old(it)).len(),
+            match r {
+                Some((ix, c)) => ci_pos(*old(it)) < ci_seq(*old(it)).len() && ci_pos(*final(it)) == ci_pos(*old(it)) + 1
+                    && ix == boff(ci_seq(*old(it)), ci_pos(*old(it))) && c == ci_seq(*old(it))[ci_pos(*old(it))],
+                None => ci_pos(*old(it)) == ci_seq(*old(it)).len() && ci_pos(*final(it)) == ci_pos(*old(it)),
+            };
+
+    pub assume_specification<T: std::default::Default> [std::mem::take] (dest: &mut T) -> (r: T)
+        ensures r == *old(dest);
+
+    /// A-std-string: the encoded length of a `String` fits `usize`
+    #[verifier::external_body]
+    pub proof fn axiom_string_bytes_fit(s: &String)
+        ensures encode_utf8(s@).len() <= usize::MAX,
+    {}
+
+    /// A-std-string: `String: Index<I>` is `str: Index<I>` on `as_str()` (library/alloc/src/string.rs)
+    pub uninterp spec fn string_as_str(s: &String) -> &str;
+    #[verifier::external_body]
+    pub broadcast proof fn axiom_string_as_str(s: &String)
+        ensures (#[trigger] string_as_str(s))@ == s@,
+    {}
+    #[verifier::external_body]
+    pub broadcast proof fn axiom_string_index_req<I: std::slice::SliceIndex<str>>(s: &String, i: &I)
+        ensures #[trigger] vstd::std_specs::core::IndexSpec::index_req(s, i) == vstd::slice::SliceIndexSpec::in_bounds(i, string_as_str(s)),
+    {}
+    pub assume_specification<I: std::slice::SliceIndex<str>>[ <String as std::ops::Index<I>>::index ](s: &String, i: I) -> (r: &I::Output)
+        ensures vstd::slice::SliceIndexSpec::index_postcondition(&i, string_as_str(s), r);
+
+    /// A-std-osfrom: `OsString::from(&str)` is a function of the chars
+    pub uninterp spec fn os_of_chars(s: Seq<char>) -> OsString;
+    pub uninterp spec fn os_from<T: ?Sized>(s: &T) -> OsString;
+    #[verifier::external_body]
+    pub broadcast proof fn axiom_os_from_str(s: &str)
+        ensures #[trigger] os_from::<str>(s) == os_of_chars(s@),
+    {}
+    #[verifier::allow(undeclared_external_trait)]
+    pub assume_specification<'a, T: ?Sized + AsRef<std::ffi::OsStr>>[ <OsString as From<&'a T>>::from ](s: &T) -> (r: OsString)
+        ensures r == os_from::<T>(s);
 
     /// bpaf::meta_youmean::Suggestion: opaque (T8)
     #[verifier::external_body]
@@ -773,6 +834,44 @@ pub mod spec {
             self.args.wf() && self.args.scope.start <= self.cur
         }
     }
+
+    // ---- short option clusters (src/args.rs disambiguate_short)
+    pub open spec fn lists(xs: Seq<char>, c: char) -> bool { exists|i: int| 0 <= i < xs.len() && peq(#[trigger] xs[i], c) }
+    /// `c` can only be a flag
+    pub open spec fn pure_flag(c: char, fl: Seq<char>, ar: Seq<char>) -> bool { lists(fl, c) && !lists(ar, c) }
+    /// items `new[0..j)` are the short flags `s[0..j)`, none with an attached value, the first carrying the whole word
+    pub open spec fn flag_run(new: Seq<Arg>, s: Seq<char>, j: int, os: OsString) -> bool {
+        &&& new.len() >= j
+        &&& forall|i: int| 0 <= i < j ==> ((#[trigger] new[i]) matches Arg::Short(c, adj, _) && c == s[i] && !adj)
+        &&& (j > 0 ==> (new[0] matches Arg::Short(_, _, o) && o == os))
+    }
+    /// what is appended for the cluster `s` (the text after `-`), `j` being the length of its prefix of pure flags:
+    /// one lone name; all flags; flags then an argument name with the rest as its attached value; the whole word kept as a
+    /// positional; or flags up to the ambiguous name and the error
+    pub open spec fn cluster_items(new: Seq<Arg>, r: Option<Message>, base: int, s: Seq<char>, short: String, fl: Seq<char>, ar: Seq<char>, os: OsString, j: int) -> bool {
+        let n = s.len() as int;
+        if n == 1 {
+            new == seq![Arg::Short(s[0], false, os)] && r is None
+        } else if j == n {
+            flag_run(new, s, n, os) && new.len() == n && r is None
+        } else if !lists(fl, s[j]) && lists(ar, s[j]) {
+            &&& flag_run(new, s, j, os) && r is None
+            &&& new.len() == j + 1 + (if j + 1 < n { 1int } else { 0int })
+            &&& (new[j] matches Arg::Short(c, adj, o) && c == s[j] && adj == (j + 1 < n) && o == os)
+            &&& (j + 1 < n ==> new[j + 1] == Arg::Word(os_of_chars(s.skip(j + 1))))
+        } else if !lists(fl, s[j]) && !lists(ar, s[j]) {
+            new == seq![Arg::Word(os)] && r is None
+        } else {
+            &&& flag_run(new, s, j, os) && new.len() == j + 1 && new[j] == Arg::Word(os)
+            &&& r == Some(Message::Ambiguity((base + j) as usize, short))
+        }
+    }
+    pub open spec fn cluster_post(new: Seq<Arg>, r: Option<Message>, base: int, short: String, fl: Seq<char>, ar: Seq<char>, os: OsString) -> bool {
+        exists|j: int| 0 <= j <= short@.len()
+            && (forall|i: int| 0 <= i < j ==> pure_flag(#[trigger] short@[i], fl, ar))
+            && (1 < short@.len() && j < short@.len() ==> !pure_flag(short@[j], fl, ar))
+            && #[trigger] cluster_items(new, r, base, short@, short, fl, ar, os, j)
+    }
 }
 
 pub mod lemmas {
@@ -981,12 +1080,122 @@ pub mod lemmas {
         axiom_item_state_eq,
         lemma_strip_push,
     }
+
+//@@ lemma
+//@@ unit lemmas.utf8_offsets tags=C02,C04,C05
+    pub proof fn lemma_boff_step(s: Seq<char>, k: int)
+        requires 0 <= k < s.len(),
+        ensures boff(s, k + 1) == boff(s, k) + encode_scalar(s[k] as u32).len(), boff(s, 0) == 0,
+    {
+        reveal(boff);
+        assert(s.take(k + 1) =~= s.take(k).push(s[k]));
+        encode_utf8_push(s.take(k), s[k]);
+        assert(s.take(0) =~= Seq::<char>::empty());
+    }
+
+    /// the end of an encoded prefix is a char boundary of the whole encoding
+    pub proof fn lemma_boundary(a: Seq<char>, b: Seq<char>)
+        ensures is_char_boundary(encode_utf8(a + b), encode_utf8(a).len() as int),
+        decreases a.len(),
+    {
+        encode_utf8_valid_utf8(a + b);
+        if a.len() == 0 {
+        } else {
+            let c = a[0];
+            let a1 = a.drop_first();
+            assert((a + b).drop_first() =~= a1 + b);
+            encode_utf8_first_scalar(a + b);
+            encode_utf8_first_scalar(a);
+            lemma_boundary(a1, b);
+            let bytes = encode_utf8(a + b);
+            assert(pop_first_scalar(bytes) =~= encode_utf8(a1 + b));
+            assert(encode_utf8(a).len() == encode_scalar(c as u32).len() + encode_utf8(a1).len());
+        }
+    }
+
+    pub proof fn lemma_split_at(s: Seq<char>, k: int)
+        requires 0 <= k <= s.len(),
+        ensures
+            0 <= boff(s, k) <= encode_utf8(s).len(),
+            is_char_boundary(encode_utf8(s), boff(s, k)),
+            encode_utf8(s).subrange(boff(s, k), encode_utf8(s).len() as int) == encode_utf8(s.skip(k)),
+            (boff(s, k) == encode_utf8(s).len()) == (k == s.len()),
+    {
+        reveal(boff);
+        assert(s =~= s.take(k) + s.skip(k));
+        encode_utf8_concat(s.take(k), s.skip(k));
+        lemma_boundary(s.take(k), s.skip(k));
+        assert(encode_utf8(s).subrange(boff(s, k), encode_utf8(s).len() as int) =~= encode_utf8(s.skip(k)));
+        if k < s.len() {
+            encode_utf8_first_scalar(s.skip(k));
+        } else {
+            assert(s.skip(k) =~= Seq::<char>::empty());
+        }
+    }
+
+    pub proof fn lemma_str_eq(a: Seq<char>, b: Seq<char>)
+        requires encode_utf8(a) == encode_utf8(b),
+        ensures a == b,
+    {
+        encode_utf8_decode_utf8(a);
+        encode_utf8_decode_utf8(b);
+    }
+
+    /// `ix + c.len_utf8()` is the offset of the next char and a legal start for `&short[..]`
+    pub proof fn lemma_cluster_step(short: &String, k: int, ix: usize, c: char)
+        requires 0 <= k < short@.len(), ix == boff(short@, k), c == short@[k],
+        ensures
+            ix + c.len_utf8() == boff(short@, k + 1),
+            ix + c.len_utf8() <= usize::MAX,
+            (k == 0) == (ix == 0),
+            vstd::std_specs::core::IndexSpec::index_req(short, &(((ix + c.len_utf8()) as usize)..)),
+    {
+        broadcast use vstd::std_specs::range::group_range_axioms;
+        axiom_string_bytes_fit(short);
+        lemma_boff_step(short@, k);
+        lemma_split_at(short@, k);
+        lemma_split_at(short@, k + 1);
+        lemma_split_at(short@, short@.len() as int);
+        reveal(boff);
+        assert(short@.take(short@.len() as int) =~= short@);
+        axiom_string_index_req::<std::ops::RangeFrom<usize>>(short, &(((ix + c.len_utf8()) as usize)..));
+        axiom_string_as_str(short);
+        if k > 0 { lemma_boff_step(short@, k - 1); lemma_split_at(short@, k - 1); }
+    }
+
+    /// the slice from the offset of char k holds exactly the chars from k on
+    pub proof fn lemma_cluster_rest(short: &String, k: int, rest: &str)
+        requires
+            0 <= k <= short@.len(),
+            vstd::slice::SliceIndexSpec::index_postcondition(&((boff(short@, k) as usize)..), string_as_str(short), rest),
+        ensures rest@ == short@.skip(k), os_from::<str>(rest) == os_of_chars(short@.skip(k)),
+    {
+        broadcast use vstd::std_specs::range::group_range_axioms;
+        axiom_string_bytes_fit(short);
+        lemma_split_at(short@, k);
+        axiom_string_as_str(short);
+        lemma_str_eq(rest@, short@.skip(k));
+        axiom_os_from_str(rest);
+    }
+
+    /// consequences State::construct uses: something is appended, and never a PosWord
+    pub broadcast proof fn lemma_cluster_shape(all: Seq<Arg>, r: Option<Message>, base: int, short: String, fl: Seq<char>, ar: Seq<char>, os: OsString)
+        requires #[trigger] cluster_post(all.skip(base), r, base, short, fl, ar, os), short@.len() > 0, 0 <= base <= all.len(),
+        ensures all.len() > base, forall|j: int| base <= j < all.len() ==> !(#[trigger] all[j] is PosWord),
+    {
+        let new = all.skip(base);
+        assert(new.len() > 0);
+        assert forall|j: int| base <= j < all.len() implies !(#[trigger] all[j] is PosWord) by {
+            assert(all[j] == new[j - base]);
+        }
+    }
+//@@ end
 }
 
 pub mod real {
     use super::spec::*;
     use super::lemmas::*;
-    broadcast use {super::lemmas::ledger, super::prelude::axiom_peq_char, super::prelude::axiom_iter_elems_vec_ref};
+    broadcast use {super::lemmas::ledger, super::prelude::axiom_peq_char, super::prelude::axiom_iter_elems_vec_ref, super::lemmas::lemma_cluster_shape};
     use super::*;
     use super::prelude::*;
 
@@ -2215,23 +2424,83 @@ impl State {
 //@@ unit arg.ArgType tags= derive_eq
 //@@ end
 
-/// assumed (byte-level code over OsStr; bounded by Kani K03): an attached value is always an ArgWord; a name before `=` of a
+/// assumed (byte-level code over OsStr; bounded by Kani K03): an attached value is always an ArgWord; the name of a
 /// short option is not empty
 #[verifier::external_body]
 pub fn split_os_argument(input: &std::ffi::OsStr) -> (r: Option<(ArgType, String, Option<Arg>)>)
     ensures
         r matches Some(t) ==> (t.2 matches Some(a) ==> a is ArgWord),
-        r matches Some(t) ==> (t.0 is Short && t.2 is Some ==> t.1@.len() > 0),
+        r matches Some(t) ==> (t.0 is Short ==> t.1@.len() > 0),
 { unimplemented!() }
 
-/// assumed (String/char_indices code; K02 infeasible): appends at least one item, never a PosWord, keeps what was there
-#[verifier::external_body]
-pub fn disambiguate_short(os: OsString, short: String, short_flags: &[char], short_args: &[char], items: &mut Vec<Arg>) -> (r: Option<Message>)
+// ---- short option clusters (C02, C05, C04): real body against the UTF-8 model of vstd
+//@@ fn src/args.rs | fn disambiguate_short
+//@@ unit args.disambiguate_short tags=C02,C05,C04,C10 loops=1 desugar_for=1 nowrap
+//@@ ret r
+//@@ attr
+#[verifier::loop_isolation(false)]
+//@@ spec
+    requires short@.len() > 0,
     ensures
-        final(items).len() > old(items).len(),
-        forall|i: int| 0 <= i < old(items).len() ==> #[trigger] final(items)[i] == old(items)[i],
-        forall|i: int| old(items).len() <= i < final(items).len() ==> !(#[trigger] final(items)[i] is PosWord),
-{ unimplemented!() }
+        final(items).len() >= old(items).len(), // #appends_only
+        forall|i: int| 0 <= i < old(items).len() ==> #[trigger] final(items)[i] == old(items)[i], // #items_of_earlier_words_kept
+        cluster_post(final(items)@.skip(old(items).len() as int), r, old(items).len() as int, short, short_flags@, short_args@, os), // #cluster_is_flags_then_at_most_one_argument_with_the_rest_as_its_value
+//@@ preloop 1
+let ghost os0 = os;
+//@@ loop 1
+        invariant
+            ci_seq(verif_it_1) == short@,
+            forall|i: int| 0 <= i < old(items).len() ==> #[trigger] items[i] == old(items)[i],
+            os == os0,
+            0 <= ci_pos(verif_it_1) <= short@.len(),
+            short@.len() > 1 || ci_pos(verif_it_1) == 0,
+            items.len() == old(items).len() + ci_pos(verif_it_1),
+            forall|i: int| 0 <= i < ci_pos(verif_it_1) ==> pure_flag(#[trigger] short@[i], short_flags@, short_args@),
+            flag_run(items@.skip(old(items).len() as int), short@, ci_pos(verif_it_1), os0),
+            ci_pos(verif_it_1) == 0 ==> first_flag == os0,
+        decreases short@.len() - ci_pos(verif_it_1),
+//@@ loopbody 1
+proof { lemma_cluster_step(&short, ci_pos(verif_it_1) - 1, ix, c); }
+//@@ insert before 1 `if ix == 0`
+proof { lemma_cluster_rest(&short, ci_pos(verif_it_1), rest); }
+//@@ insert before 1 `return None;`
+proof { assert(items@.skip(old(items).len() as int) =~= seq![Arg::Short(short@[0], false, os0)]);
+        assert(cluster_items(items@.skip(old(items).len() as int), None, old(items).len() as int, short@, short, short_flags@, short_args@, os0, 0));
+        assert(cluster_post(items@.skip(old(items).len() as int), None, old(items).len() as int, short, short_flags@, short_args@, os0)); }
+//@@ insert before 2 `items.push(Arg::Short(c, false, std::mem::take(&mut first_flag)));`
+let ghost before = items@.skip(old(items).len() as int);
+//@@ insert after 2 `items.push(Arg::Short(c, false, std::mem::take(&mut first_flag)));`
+proof { assert(items@.skip(old(items).len() as int) =~= before.push(items@[items.len() - 1])); }
+//@@ insert before 1 `items.push(Arg::Short(c, adjacent_body, std::mem::take(&mut os)));`
+let ghost before = items@.skip(old(items).len() as int);
+//@@ insert after 1 `items.push(Arg::Short(c, adjacent_body, std::mem::take(&mut os)));`
+proof { assert(items@.skip(old(items).len() as int) =~= before.push(items@[items.len() - 1])); }
+let ghost before2 = items@.skip(old(items).len() as int);
+//@@ insert after 1 `items.push(Arg::Word(rest.into()));`
+proof { assert(items@.skip(old(items).len() as int) =~= before2.push(items@[items.len() - 1])); }
+//@@ insert before 2 `return None;`
+proof { let j = ci_pos(verif_it_1) - 1; let new = items@.skip(old(items).len() as int);
+        assert(new.len() == items.len() - old(items).len());
+        assert(forall|i: int| 0 <= i < new.len() ==> new[i] == items@[old(items).len() + i]);
+        assert(cluster_items(new, None, old(items).len() as int, short@, short, short_flags@, short_args@, os0, j));
+        assert(cluster_post(new, None, old(items).len() as int, short, short_flags@, short_args@, os0)); }
+//@@ insert before 3 `return None;`
+proof { let j = ci_pos(verif_it_1) - 1;
+        assert(items@.skip(old(items).len() as int) =~= seq![Arg::Word(os0)]);
+        assert(cluster_items(items@.skip(old(items).len() as int), None, old(items).len() as int, short@, short, short_flags@, short_args@, os0, j));
+        assert(cluster_post(items@.skip(old(items).len() as int), None, old(items).len() as int, short, short_flags@, short_args@, os0)); }
+//@@ insert before 1 `items.push(Arg::Word(std::mem::take(&mut os)));`
+let ghost before = items@.skip(old(items).len() as int);
+//@@ insert before 1 `return Some(msg);`
+proof { let j = ci_pos(verif_it_1) - 1; let new = items@.skip(old(items).len() as int);
+        assert(new =~= before.push(items@[items.len() - 1]));
+        assert(cluster_items(new, Some(msg), old(items).len() as int, short@, short, short_flags@, short_args@, os0, j));
+        assert(cluster_post(new, Some(msg), old(items).len() as int, short, short_flags@, short_args@, os0)); }
+//@@ postloop 1
+proof { let n = short@.len() as int;
+        assert(cluster_items(items@.skip(old(items).len() as int), None, old(items).len() as int, short@, short, short_flags@, short_args@, os0, n));
+        assert(cluster_post(items@.skip(old(items).len() as int), None, old(items).len() as int, short, short_flags@, short_args@, os0)); }
+//@@ end
 
 
 // completion marker scanner (feature = "autocomplete"): the struct is extracted, its two methods are assumed
